@@ -379,13 +379,21 @@ private:
     // =========================================================================
 
     bool unbuffered_send(T* ptr, Timeout timeout) {
+        // One sender at a time uses the hand-off slot: the slot, m_handoff_ready
+        // and m_unbuf_send_cv cannot tell two senders apart.
+        if (m_unbuf_sender_turn.lock(timeout) != 0) {
+            delete ptr;
+            return false;   // errno == ETIMEDOUT
+        }
+        DEFER(m_unbuf_sender_turn.unlock());
         SCOPED_LOCK(m_unbuf_mutex);
 
         m_senders_waiting++;
         DEFER(m_senders_waiting--);
 
-        // Wait for a receiver
-        while (!m_closed && m_receivers_waiting == 0 && !m_handoff_ready) {
+        // Wait for a receiver and for a free slot (a value placed by try_send
+        // may still be waiting for its receiver)
+        while (!m_closed && (m_receivers_waiting == 0 || m_handoff_ready)) {
             if (timeout.expired()) {
                 delete ptr;
                 errno = ETIMEDOUT;
@@ -457,6 +465,11 @@ private:
     }
 
     bool unbuffered_try_send(T* ptr) {
+        if (m_unbuf_sender_turn.try_lock() != 0) {
+            delete ptr;
+            return false;   // another sender is using the hand-off slot
+        }
+        DEFER(m_unbuf_sender_turn.unlock());
         SCOPED_LOCK(m_unbuf_mutex);
 
         if (m_closed) {
@@ -531,6 +544,7 @@ private:
     T* m_handoff_ptr;
     bool m_handoff_ready;
     mutex m_unbuf_mutex;
+    mutex m_unbuf_sender_turn;  // serializes senders of an unbuffered channel
     condition_variable m_unbuf_send_cv;
     condition_variable m_unbuf_recv_cv;
 };
